@@ -211,7 +211,7 @@ func c14Run(c *Ctx) {
 	}
 	// depth 3: random
 	r := c.Rand("depth3")
-	n := c.N(20000, 500000)
+	n := c.N(20000, 3000000)
 	for k := 0; k < n; k++ {
 		f := forms[r.Intn(len(forms))]
 		pick := func(kind string) *c14Form {
